@@ -702,6 +702,56 @@ def _known_after(blk):
     return known
 
 
+def _succs(t):
+    k = t['k']
+    if k == 'goto':
+        return [t['target']]
+    if k == 'switch':
+        return [tb for _, tb in t['targets']] + [t['otherwise']]
+    if k in ('drop', 'assert'):
+        return [t['target']]
+    if k == 'call':
+        return [t['target']] if t.get('target') is not None else []
+    return []
+
+
+def _consts_before(j, a, max_back=8):
+    """integer constants held by whole locals at the end of block a, as far as the unique-predecessor chain into a
+    determines them (drop flags and mode flags are set to constants a few blocks before the join they steer)"""
+    preds = {}
+    for i, blk in enumerate(j['blocks']):
+        if blk['cleanup']:
+            continue
+        for sx in _succs(blk['term']):
+            preds.setdefault(sx, []).append(i)
+    chain = [a]
+    cur = a
+    for _ in range(max_back):
+        ps = preds.get(cur, [])
+        if len(ps) != 1 or ps[0] in chain:
+            break
+        cur = ps[0]
+        chain.append(cur)
+    consts = {}
+    for bi in reversed(chain):
+        blk = j['blocks'][bi]
+        for s in blk['stmts']:
+            if s['k'] != 'assign' or not _whole(s['pl']):
+                continue
+            l = s['pl']['l']
+            rv = s['rv']
+            if rv['k'] == 'use' and rv['op']['k'] == 'const' and rv['op'].get('int') is not None:
+                consts[l] = rv['op']['int']
+            elif rv['k'] == 'use' and rv['op']['k'] in ('move', 'copy') and _whole(rv['op']['pl']) and rv['op']['pl']['l'] in consts:
+                consts[l] = consts[rv['op']['pl']['l']]
+            else:
+                consts.pop(l, None)
+        t = blk['term']
+        if t['k'] == 'call' and _whole(t.get('dest')):
+            consts.pop(t['dest']['l'], None)
+    return consts
+
+
 def _payload_read(pl):
     """(local, variant) when the place is `(local as Variant).0`"""
     p = pl['p']
@@ -735,7 +785,7 @@ def thread_known_variants(j, max_clones=80, max_len=14):
             if not known:
                 continue
             names = dict(known)      # local -> (variant name, payload const)
-            dvals = {}               # local -> known integer (discriminant or constant payload)
+            dvals = _consts_before(j, a)   # local -> known integer (drop flags / flags set on the way here, then discriminants and constant payloads)
             path = []                # [(block, resolved successor or None)]
             cur = start
             last_resolved = -1
